@@ -329,6 +329,32 @@ def focus_profile(globs=(("os", "system"), ("builtins", "eval")), ops=FOCUS_OPS,
     return Profile(ops=ops, globs=globs, ints=(1,), strs=("a",), memo_keys=(0,), **kw)
 
 
+CONTAINER_OPS = (
+    "NONE", "BININT1", "SHORT_BINUNICODE", "MARK", "DICT", "LIST", "TUPLE", "FROZENSET",
+    "EMPTY_DICT", "EMPTY_SET", "EMPTY_LIST", "SETITEM", "SETITEMS", "APPEND", "APPENDS", "ADDITEMS",
+    "BINPUT", "BINGET", "DUP", "POP", "TUPLE2",
+)  # fmt: skip
+
+
+def container_profile(**kw):
+    """second bounded-exhaustive alphabet: every container-building / container-mutating opcode
+    with two distinct ints (duplicate and distinct keys), memo aliasing and DUP"""
+    return Profile(ops=CONTAINER_OPS, globs=(), ints=(1, 2), strs=("a",), memo_keys=(0,), **kw)
+
+
+ALIAS_OPS = ("EMPTY_LIST", "EMPTY_DICT", "BINPUT", "BINGET", "DUP", "NONE", "APPEND", "SETITEM",
+             "POP", "TUPLE2")  # fmt: skip
+
+
+def alias_profile(**kw):
+    """third bounded-exhaustive alphabet, small enough to go deep: two references to one mutable
+    container (memo / DUP), a mutation through one, an observation through the other"""
+    return Profile(ops=ALIAS_OPS, globs=(), ints=(1,), strs=("a",), memo_keys=(0,), **kw)
+
+
+ENUM_PROFILES = {"containers": container_profile, "aliasing": alias_profile}
+
+
 def full_profile(globs, **kw):
     # default weight is 2; opcodes fickling does not implement get 1 (they end in a refusal)
     weights = {
@@ -366,6 +392,7 @@ class State:
         self.call_results = []
         self.instrs = []
         self.excluded = {}  # choices withheld because of an exclusion flag
+        self.just_mutated_alias = False
 
     # -- helpers
     def tsm(self):
@@ -455,6 +482,9 @@ class State:
             b.update(SETITEM=8)
         if t is not None and n - t - 2 >= 0 and self._aliased(st[n - t - 2]):
             b.update(APPENDS=6, SETITEMS=6, ADDITEMS=6)
+        if self.just_mutated_alias:
+            # expose the *other* reference to the container that was just mutated
+            b.update(POP=8, TUPLE2=8, TUPLE=3, BINGET=3)
         return b
 
     def _aliased(self, v):
@@ -624,6 +654,16 @@ class State:
         st = self.st
         self.instrs.append(ins)
         self.tags.add(op)
+        mutated = None
+        if op == "APPEND" and len(st) >= 2:
+            mutated = st[-2]
+        elif op == "SETITEM" and len(st) >= 3:
+            mutated = st[-3]
+        elif op in ("APPENDS", "SETITEMS", "ADDITEMS"):
+            t = self.tsm()
+            if t is not None and len(st) - t - 2 >= 0:
+                mutated = st[len(st) - t - 2]
+        self.just_mutated_alias = mutated is not None and self._aliased(mutated)
         if op == "NONE":
             st.append(V("none"))
         elif op in ("BININT1", "BININT2", "BININT", "INT", "LONG", "LONG1", "LONG4"):
